@@ -186,6 +186,7 @@ def mutate(ctx, rng, m):
 
 
 STATS = {}
+LAST_ROWS = []       # the complete insert statements of the last fragments() call
 
 
 def fragments(rng):
@@ -205,6 +206,7 @@ def fragments(rng):
                 # had to do without it
                 late.extend(mine)
                 STATS['late-create-table'] = STATS.get('late-create-table', 0) + 1
+    LAST_ROWS[:] = rows
     rng.shuffle(rows)
     # the schema goes first so that most builds succeed; the rows are spread over later inputs
     n = rng.randint(1, 4)
@@ -225,7 +227,7 @@ def run_history(ctx, rng):
     plan = [('input', t) for t in fragments(rng)]
     if rng.random() < 0.4:
         # an input call that is rejected after one or more well-formed statements: nothing of it is accepted input
-        good = [l for _, t in plan for l in t.splitlines() if l.startswith('INSERT')]
+        good = list(LAST_ROWS)       # whole statements (a value may hold line breaks and quotes)
         head = '\n'.join(rng.sample(good, min(len(good), rng.randint(1, 2)))) if good else 'CREATE TABLE Zq (Id INTEGER);'
         bad = head + '\n' + rng.choice(('INSERT INTO ( ;', 'CREATE TABLE ;', '\x01', "INSERT INTO X VALUES ('unterminated);",
                                           'CREATE ROP REF_ID R1 FROM 1 A () TO ;', ') ;'))
@@ -245,7 +247,7 @@ def run_history(ctx, rng):
         elif step[0] == 'bad-input':
             try:
                 loader.input(step[1])
-                accepted.append(step[1])
+                raise AssertionError('harness: a text meant to be rejected was accepted: %r' % step[1])
             except xtuml.ParsingException:
                 ctx.hit('History.rejected-input-call')
             log.append(('input (rejected)', step[1][:200]))
